@@ -36,8 +36,10 @@ def gen(rng, tier):
     # (the sweep also checks what C20 demands: bad_alloc, no leak, previous/new bytes or an integrity error)
     for n in [16, 32, 33, 80, 200]:
         p1 = plain(n); p2 = plain(rng.choice([16, 40, 100]))
-        for api in ("ss_rotate", "ss_rotate_revealed", "ss_set", "ss_rotate_twice", "ss_rotate_move_rotate"):
+        for api in ("ss_rotate", "ss_rotate_revealed", "ss_set", "ss_rotate_twice", "ss_rotate_move_rotate", "ss_rotate_moveassign_read"):
             cases.append(Case("oom %s %s %s" % (api, hexs(p1), hexs(p2)), "oom %s len%s" % (api, lcls(n)), True))
+    # a secret longer than 2 MiB: keystream block counters beyond 65535 in set, reveal and rotate (the three loops must keep agreeing)
+    cases.append(Case("ssbig %d" % (2 * 1024 * 1024 + 4103), "multi-MiB secret", True))
     return cases
 
 STEP = re.compile(r"ct=(\S+?),nonce=(\S+?),tag=(\S+?),reveal=(.*?),heap=(\w+),wipe=(\w+),opaque=(\w+),tamper=(\S+)")
